@@ -685,6 +685,7 @@ class coverpoint(object):
                 self.cp_t = target
             elif callable(target):
                 if cp_t is None and bins is None:
+                    ctor.clear_exprs()
                     raise Exception("Auto-binned coverpoint with a callable target must specify type using 'cp_t'")
 
                 # Accept the user-specified type
@@ -721,6 +722,7 @@ class coverpoint(object):
                     # gate when sampling occurs
                     self.iff_f = iff
                 else:
+                    ctor.clear_exprs()
                     raise Exception("Unknown iff type " + str(iff))
             
         self.bins = bins
@@ -904,6 +906,7 @@ class cross(object):
                  iff=None):
         for t in target_l:
             if not isinstance(t, coverpoint):
+                ctor.clear_exprs()
                 raise Exception("Cross target \"" + str(t) + "\" is not a coverpoint")
         self.target_l = target_l
         self.bins = bins
@@ -925,7 +928,11 @@ class cross(object):
                 elif callable(iff):
                     self.iff_f = iff
                 else:
+                    ctor.clear_exprs()
                     raise Exception("Unknown iff type " + str(iff))
+                
+        # An iff given as an expression was pushed when it was written
+        ctor.clear_exprs()
         
         # Capture the declaration location of this cross
         frame = inspect.stack()[1]
